@@ -1,2 +1,31 @@
 #!/bin/sh
+# Build the whole machinery from files on disk: Coq development (full .vo),
+# extraction, OCaml runner.  Idempotent; `--incremental` is the same build
+# (make only redoes what changed) and is what every check calls first.
+set -e
+cd "$(dirname "$0")"
+export LC_ALL=C
+cd coq
+find . -name '*.v' ! -path './Run/cases*' | LC_ALL=C sort > .vfiles.new
+if [ ! -f Makefile ] || ! cmp -s .vfiles.new .vfiles; then
+  mv .vfiles.new .vfiles
+  coq_makefile -f _CoqProject $(cat .vfiles) -o Makefile > /dev/null
+else
+  rm -f .vfiles.new
+fi
+if ! timeout 7200 make -j16 > .make.log 2>&1; then
+  tail -40 .make.log
+  exit 1
+fi
+cd ..
+mkdir -p bin ocaml/_build
+if [ ! -x bin/mrun ] || [ coq/Run/model.ml -nt bin/mrun ] || [ ocaml/driver.ml -nt bin/mrun ]; then
+  cp coq/Run/model.ml coq/Run/model.mli ocaml/driver.ml ocaml/_build/
+  (cd ocaml/_build && ocamlfind ocamlopt -O3 -unboxed-types 2>/dev/null -w -a model.mli model.ml driver.ml -o ../../bin/mrun.new \
+     || ocamlfind ocamlopt -w -a model.mli model.ml driver.ml -o ../../bin/mrun.new)
+  mv bin/mrun.new bin/mrun
+fi
+# self-test: the runner answers a known request
+out=$(echo "1502 3 5 7 5 2 5 7 2 7 5" | bin/mrun)
+[ "$out" = "0 3 7 5 7 3 7 5 7" ] || { echo "mrun self-test failed: $out"; exit 1; }
 exit 0
